@@ -127,9 +127,16 @@ CLAIMED["C18"] = ("schema-lab", "exploration",
    "The projection is the harness's reading of 'the same schema'; diagnostics are compared by their title line (positions aside).", "runtime differential/metamorphic oracle (projection equality, idempotence)", "DESIGN.md §4b C18")
 CLAIMED["C20"] = ("schema-lab", "exploration",
    "Runtime metamorphic monitoring of the real TypeId::compute on hand-built IR fed through 64 const-generic Introspectable slots (random, recursive and mutually recursive layouts over all built-ins and generics): documentation edits, reference visiting order, insertion order and slot renumbering must keep the id, every single semantic edit of a reachable node (50 kinds: names, schema, ids, required flag, referenced types, fallbacks, uuid, version, payload presence, array length, transitive) must change it; Introspection records must round-trip through serialization and their references must resolve. Held on the layouts observed.",
-   "Sampled 'iff'. Agreement of the derive/service macros and the code generator with hand-built IR needs compiled generated code (C16's corpus) and is not part of this check's verdict.", "runtime metamorphic oracle over the real hash function", "DESIGN.md §4b C20")
+   "Sampled 'iff'. The compiled-code half (generator output vs generate! macro vs hand-written derives with implicit/explicit ids) runs through C16's corpus crate in the same check; agreement of compiled code with hand-built IR for the same schema is not checked.", "runtime metamorphic oracle over the real hash function", "DESIGN.md §4b C20")
 ENGINES.append({"name": "schema-lab", "path": "harness/src/schema", "serves_properties": ["C17", "C18", "C20"],
   "kind_free_text": "grammar-directed schema generator (own abstract schema + layout randomiser), AST projection through public accessors, token-soup and file-mutation generators, const-generic IR slots for the type-id function"})
+
+CLAIMED["C16"] = ("schema-lab", "exploration",
+   "Generated valid schemas (structs, enums, newtypes, services with inline types, consts as array lengths, optional/required fields, fallbacks, generics, arrays, results, maps/sets, recursion through box, awkward identifiers, adversarial docs, boundary ids) plus a fixed schema of corner shapes go through both code paths (aldrin-codegen's generator and the generate! macro) into a scratch corpus crate built with cargo: rustc is the monitor for 'compiles'. A generated runner decodes and re-encodes vectors produced from the schema by the harness's conformance relation: conforming values (both container encodings and mixed, optional fields absent/None/Some, unknown ids, unknown variants for fallback enums) must round-trip to their normal form (unknown parts preserved with fallback), systematic non-conforming mutants must be rejected; type ids of generator and macro output must agree; hand-written derives with implicit ids must agree with explicit twins on ids and wire. Held on the schemas and vectors observed.",
+   "Trusts rustc/cargo and the harness's conformance relation (harness/src/schema/conform.rs); inline service types are only monitored for compiling.", "rustc as compile monitor + runtime differential oracle (conformance relation) over generated code", "DESIGN.md §4b C16")
+for e in ENGINES:
+    if e["name"] == "schema-lab":
+        e["serves_properties"] = ["C16", "C17", "C18", "C20"]
 
 if __name__ == "__main__":
     main()
